@@ -1,3 +1,438 @@
--- stub: the driver of C19 is not built yet
 import WmModel.Basic
-def main : IO Unit := Wm.driverMain (fun _ => "bad-op")
+import WmModel.Middleware
+open Wm Wm.Mw
+
+/-! Line-protocol driver of C19.  `M <req>` prints the model's observation, `P <req> ## <obs>` evaluates the
+    property on the implementation's observation (independent of `Wm.Mw.run`: it never threads a message state
+    through the stack; it derives, clause by clause, what the statement of C19 demands). -/
+
+namespace C19
+
+/-! ### tokens -/
+
+def strOfHex (s : String) : Option String := do
+  let bs ← hexDec s
+  String.fromUTF8? (ByteArray.mk bs.toArray)
+
+def hexOfStr (s : String) : String := hexEnc s.toUTF8.toList
+
+def splitC (s : String) (c : Char) : List String :=
+  (s.splitOn (String.singleton c))
+
+def dropN (s : String) (n : Nat) : String := String.ofList (s.toList.drop n)
+def takeN (s : String) (n : Nat) : String := String.ofList (s.toList.take n)
+def pfx (p s : String) : Bool := p.toList.isPrefixOf s.toList
+
+/-- insertion sort of metadata by key -/
+def insertKV (kv : String × String) : Meta → Meta
+  | [] => [kv]
+  | x :: rest => if kv.1 < x.1 then kv :: x :: rest else x :: insertKV kv rest
+def sortMeta (m : Meta) : Meta := m.foldr insertKV []
+
+def showMeta (m : Meta) : String :=
+  if m.isEmpty then "-" else
+  String.intercalate "," ((sortMeta m).map fun (k, v) => hexOfStr k ++ "=" ++ hexOfStr v)
+
+def parseMeta (s : String) : Option Meta :=
+  if s = "-" then some [] else
+  (splitC s ',').mapM fun kv =>
+    match splitC kv '=' with
+    | [k, v] => do pure ((← strOfHex k), (← strOfHex v))
+    | _ => none
+
+def showOuts (os : List Out) : String :=
+  if os.isEmpty then "-" else
+  String.intercalate "+" (os.map fun o => hexOfStr o.id ++ "~" ++ showMeta o.md)
+
+def parseOuts (s : String) : Option (List Out) :=
+  if s = "-" then some [] else
+  (splitC s '+').mapM fun o =>
+    match splitC o '~' with
+    | [i, m] => do pure ⟨(← strOfHex i), (← parseMeta m)⟩
+    | _ => none
+
+def showPVal : PVal → String
+  | .str s => "s" ++ hexOfStr s
+  | .err s => "e" ++ hexOfStr s
+  | .nil => "n"
+
+def parsePVal (s : String) : Option PVal :=
+  if s = "n" then some .nil
+  else if pfx "s" s then (strOfHex (dropN s 1)).map .str
+  else if pfx "e" s then (strOfHex (dropN s 1)).map .err
+  else none
+
+def showErr : Err → String
+  | .base t => "b" ++ hexOfStr t
+  | .pkgWrap m e => "p" ++ hexOfStr m ++ ">" ++ showErr e
+  | .fmtWrap m e => "f" ++ hexOfStr m ++ ">" ++ showErr e
+  | .recovered v => "recovered(" ++ showPVal v ++ ",1)"
+
+def parseErrLayers : List String → Option Err
+  | [] => none
+  | [l] => if pfx "b" l then (strOfHex (dropN l 1)).map .base else none
+  | l :: rest => do
+    let inner ← parseErrLayers rest
+    let m ← strOfHex (dropN l 1)
+    if pfx "p" l then pure (.pkgWrap m inner)
+    else if pfx "f" l then pure (.fmtWrap m inner)
+    else none
+
+def parseErr (s : String) : Option Err := parseErrLayers (splitC s '>')
+
+def showRes : Res → String
+  | .ret outs none => "ret/" ++ showOuts outs ++ "/none"
+  | .ret outs (some e) => "ret/" ++ showOuts outs ++ "/" ++ showErr e
+  | .panic v => "panic/" ++ showPVal v
+
+def parseResult (s : String) : Option Res :=
+  match splitC s '/' with
+  | ["ok", o] => do pure (.ret (← parseOuts o) none)
+  | ["er", e, o] => do pure (.ret (← parseOuts o) (some (← parseErr e)))
+  | ["pn", v] => do pure (.panic (← parsePVal v))
+  | _ => none
+
+def parseScript (s : String) : Option (List Res) := do
+  let rs ← (splitC s ';').mapM parseResult
+  if rs.isEmpty then none else pure rs
+
+def showDelay : Delay → String
+  | .absent => "n"
+  | .ns n => "ns" ++ toString n
+  | .raw s => "raw" ++ hexOfStr s
+
+def parseDelay (s : String) : Option Delay :=
+  if s = "n" then some .absent
+  else if pfx "ns" s then (dropN s 2).toNat?.map .ns
+  else if pfx "raw" s then (strOfHex (dropN s 3)).map .raw
+  else none
+
+def parseCfg (s : String) : Option DelayCfg :=
+  match (splitC s ':').mapM String.toNat? with
+  | some [i, m, n, d] => if d = 0 then none else some ⟨i, m, n, d⟩
+  | _ => none
+
+def parseMw (t : String) : Option Mw :=
+  if t = "T" then some (.timeout false)
+  else if t = "T0" then some (.timeout true)
+  else if t = "C" then some .correlation
+  else if t = "R" then some .recoverer
+  else if t = "A" then some .instantAck
+  else if t = "H" then some .throttle
+  else if t = "B" then some .breaker
+  else if t = "I:" then some (.ignoreErrors [])
+  else if pfx "I:" t then ((splitC (dropN t 2) '/').mapM strOfHex).map .ignoreErrors
+  else if pfx "D:" t then (parseCfg (dropN t 2)).map .delayOnError
+  else if pfx "Y:" t then (dropN t 2).toNat?.map .retry
+  else none
+
+def parseMws (s : String) : Option (List Mw) :=
+  if s = "-" then some [] else (splitC s ',').mapM parseMw
+
+structure MsgSpec where
+  deadline : Bool
+  done : Bool
+  cid : Option String
+  delay : Delay
+
+def parseMsg (s : String) : Option MsgSpec :=
+  match splitC s '/' with
+  | [c, cid, d] => do
+    let (dl, dn) ← (match c with
+      | "live" => some (false, false) | "cancelled" => some (false, true) | "deadline" => some (true, false)
+      | _ => none)
+    let cid ← (if cid = "n" then some none else (strOfHex cid).map some)
+    let d ← parseDelay d
+    pure ⟨dl, dn, cid, d⟩
+  | _ => none
+
+def b01 (b : Bool) : String := if b then "1" else "0"
+
+def inMeta (m : MsgSpec) : Meta :=
+  (match m.cid with | none => [] | some c => [(cidKey, c)]) ++ [("in_key", "in_val")]
+
+def initSt (m : MsgSpec) (script : List Res) : St :=
+  { ctx := ⟨0, m.deadline, m.done⟩, md := inMeta m, delay := m.delay, until_ := false, acked := false,
+    ticks := 0, script := script, log := [] }
+
+def showCall (c : CallObs) : String :=
+  b01 c.deadline ++ b01 c.done ++ b01 c.acked ++ "/" ++ showDelay c.delay
+
+def showAfter (st0 st : St) : String :=
+  b01 (st.ctx == st0.ctx) ++ b01 st.ctx.deadline ++ b01 st.ctx.done ++ "/" ++ b01 st.acked ++ "/" ++
+    showDelay st.delay ++ "/" ++ b01 st.until_ ++ "/" ++ showMeta st.md
+
+/-! ### M: the model -/
+
+def modelStack (mws : List Mw) (m : MsgSpec) (script : List Res) : String :=
+  let st0 := initSt m script
+  let (r, st) := run mws scripted st0
+  showRes r ++ " calls=" ++ (if st.log.isEmpty then "-" else String.intercalate "," (st.log.map showCall)) ++
+    " after=" ++ showAfter st0 st
+
+def parseSeq (s : String) : Option (List Bool) :=
+  if s = "-" then some [] else
+  s.toList.mapM fun c => if c = 'F' then some true else if c = 'S' then some false else none
+
+/-- the DelayOnError middleware itself, called repeatedly on one message -/
+def modelDelay (c : DelayCfg) (pre : Delay) (seq : List Bool) : String :=
+  let st0 : St := { (initSt ⟨false, false, none, pre⟩ []) with md := [] }
+  let rec go (st : St) : List Bool → List String
+    | [] => []
+    | f :: rest =>
+      let r : Res := if f then .ret [⟨"o", []⟩] (some (.base "boom")) else .ret [⟨"o", []⟩] none
+      let (r', st') := delayOnError c scripted { st with script := [r] }
+      (showDelay st'.delay ++ "/" ++ b01 st'.until_ ++ b01 (r' == r)) :: go st' rest
+  let parts := go st0 seq
+  if parts.isEmpty then "-" else String.intercalate "," parts
+
+/-! ### P: the property, clause by clause -/
+
+/-- observation of a stack case as parsed by the monitor -/
+structure Obs where
+  res : String                 -- canonical result, compared as text with the expected canonical result
+  isPanic : Bool
+  calls : List (Bool × Bool × Bool × String)    -- deadline, done, acked, delay
+  same : Bool
+  dl : Bool
+  done : Bool
+  acked : Bool
+  delay : Delay
+  until_ : String
+  md : String
+
+def bit (c : Char) : Option Bool := if c = '1' then some true else if c = '0' then some false else none
+
+def parseCallObs (s : String) : Option (Bool × Bool × Bool × String) :=
+  match splitC s '/' with
+  | [f, d] => match f.toList with
+    | [a, b, c] => do pure ((← bit a), (← bit b), (← bit c), d)
+    | _ => none
+  | _ => none
+
+def parseObs (s : String) : Option Obs :=
+  match s.splitOn " " with
+  | [res, calls, after] =>
+    if !(pfx "calls=" calls) || !(pfx "after=" after) then none else do
+    let cs := dropN calls 6
+    let calls ← (if cs = "-" then some [] else (splitC cs ',').mapM parseCallObs)
+    match splitC (dropN after 6) '/' with
+    | [f, ack, dly, unt, md] =>
+      match f.toList, ack.toList with
+      | [a, b, c], [k] => do
+        pure ⟨res, pfx "panic/" res, calls, (← bit a), (← bit b), (← bit c), (← bit k), (← parseDelay dly), unt, md⟩
+      | _, _ => none
+    | _ => none
+  | _ => none
+
+def fullTxt : Err → Option String
+  | .base t => some t
+  | .pkgWrap m e => (fullTxt e).map (fun t => m ++ ": " ++ t)
+  | .fmtWrap m e => (fullTxt e).map (fun t => m ++ ": " ++ t)
+  | .recovered _ => none
+
+/-- text of what `errors.Cause` of github.com/pkg/errors arrives at: only `Wrap` layers are seen through -/
+def causeTxt : Err → Option String
+  | .pkgWrap _ e => causeTxt e
+  | .base t => some t
+  | .fmtWrap m e => (fullTxt e).map (fun t => m ++ ": " ++ t)
+  | .recovered _ => none
+
+/-- the documented effect of one middleware on one result (Retry: none – its rule is applied separately) -/
+def effect (cid : String) : Mw → Res → Res
+  | .recoverer, .panic v => .ret [] (some (.recovered v))
+  | .ignoreErrors l, .ret outs (some e) =>
+    if (match causeTxt e with | some t => l.contains t | none => false) then .ret outs none else .ret outs (some e)
+  | .correlation, .ret outs err =>
+    .ret (outs.map fun o =>
+      if (o.md.lookup cidKey).getD "" = "" then
+        { o with md := if o.md.any (·.1 == cidKey) then o.md.map (fun kv => if kv.1 == cidKey then (kv.1, cid) else kv)
+                       else o.md ++ [(cidKey, cid)] }
+      else o) err
+  | _, r => r
+
+/-- effects of the middlewares `ms` (outermost first) on a result of what they wrap -/
+def effects (cid : String) (ms : List Mw) (r : Res) : Res := ms.foldr (effect cid) r
+
+def isErrRes : Res → Bool
+  | .ret _ (some _) => true
+  | _ => false
+
+def nth (script : List Res) (i : Nat) : Res :=
+  match script[i]? with
+  | some r => r
+  | none => script.getLastD (.ret [] none)
+
+/-- Retry's own rule on the results `x i` of its attempts: (number of attempts, final result) -/
+def retryOwn (x : Nat → Res) (maxR : Nat) (ctxDone : Bool) : Nat × Res :=
+  if !isErrRes (x 0) then (1, x 0)
+  else if ctxDone then (1, x 0)
+  else
+    let cap := if maxR = 0 then 1 else maxR
+    let rec go (fuel j : Nat) : Nat × Res :=
+      match fuel with
+      | 0 => (j, x 0)
+      | fuel + 1 =>
+        if !isErrRes (x j) then (j + 1, x j)
+        else if j = cap then
+          (j + 1, match x j with | .ret _ e => .ret [] e | r => r)
+        else go fuel (j + 1)
+    go (cap + 1) 1
+
+/-- exact comparison of `d` with `min(b·(num/den)^e, max)` in integers scaled by `den^e`:
+    `d` may fall short of it only by the rounding to whole nanoseconds of the `e` multiplications -/
+def delayWithin (c : DelayCfg) (b e d : Nat) : Bool :=
+  let P := c.num ^ e
+  let Q := c.den ^ e
+  let target := Nat.min (b * P) (c.max * Q)             -- min(b·m^e, max) · Q
+  -- slack: Σ_{j<e} m^j ns, scaled by Q:  Σ_{j<e} num^j · den^(e-j)
+  let slack := (List.range e).foldl (fun acc j => acc + c.num ^ j * c.den ^ (e - j)) 0
+  decide (d * Q ≤ target) && (decide (target < d * Q + slack) || decide (target = d * Q))
+
+def splitAtRetry : List Mw → List Mw × Option Nat × List Mw
+  | [] => ([], none, [])
+  | .retry m :: rest => ([], some m, rest)
+  | x :: rest => let (o, r, i) := splitAtRetry rest; (x :: o, r, i)
+
+def countD (ms : List Mw) : Nat := (ms.filter fun m => match m with | .delayOnError _ => true | _ => false).length
+
+def hasT0 (ms : List Mw) : Bool := ms.any fun m => m == .timeout true
+def hasT (ms : List Mw) : Bool := ms.any fun m => match m with | .timeout _ => true | _ => false
+def hasMw (ms : List Mw) (m : Mw) : Bool := ms.contains m
+
+/-- expected delay check after `k` failures seen by the single DelayOnError `c` of a stack.
+    Returns the rule violated, if any. -/
+def delayRule (c : DelayCfg) (pre : Delay) (k : Nat) (obs : Delay) : Option String :=
+  if k = 0 then (if obs == pre then none else some "delay_success_untouched")
+  else match obs with
+    | .ns d =>
+      let (b, e) := match pre with
+        | .ns n => (n, k)
+        | _ => (c.init, k - 1)
+      if delayWithin c b e d then none
+      else if k = 1 && c.init > c.max && d = c.init && (match pre with | .ns _ => false | _ => true) then some "delay_first_uncapped"
+      else some "delay_formula"
+    | _ => some "delay_formula"
+
+def monitorStack (mws : List Mw) (m : MsgSpec) (script : List Res) (o : Obs) : String := Id.run do
+  let cid := (m.cid.getD "")
+  let (outer, ry, inner) := splitAtRetry mws
+  let mut bad : List String := []
+  -- what each attempt looks like at Retry's position (or at the top when there is no Retry)
+  let x : Nat → Res := fun i => effects cid inner (nth script i)
+  let ctxDoneAtRetry := m.done || hasT0 outer
+  let (n, fin) := match ry with
+    | none => (1, x 0)
+    | some maxR => retryOwn x maxR ctxDoneAtRetry
+  let expected := effects cid outer fin
+  -- a panic never escapes a Recoverer
+  if o.isPanic && hasMw mws .recoverer then bad := bad ++ ["recoverer_never_escapes"]
+  -- composition with Retry: the attempt count is Retry's own
+  if o.calls.length != n then bad := bad ++ ["retry_attempt_count"]
+  -- outputs and error pass unchanged except for the documented effects
+  if o.res != showRes expected then bad := bad ++ ["transparent_result"]
+  -- a deadline is visible during the call exactly when a Timeout is in the stack (or the caller set one)
+  for c in o.calls do
+    if c.1 != (m.deadline || hasT mws) then bad := bad ++ ["timeout_deadline_visible"]
+    if c.2.1 != (m.done || hasT0 mws) then bad := bad ++ ["context_done_during_call"]
+    if c.2.2.1 != hasMw mws .instantAck then bad := bad ++ ["instant_ack_before_call"]
+  -- the effect ends with the call
+  if !o.same || o.dl != m.deadline || o.done != m.done then bad := bad ++ ["context_restored"]
+  if o.acked != hasMw mws .instantAck then bad := bad ++ ["ack_only_by_instant_ack"]
+  if o.md != showMeta (inMeta m) then bad := bad ++ ["message_metadata_untouched"]
+  -- delay metadata
+  let ds := mws.filterMap fun mw => match mw with | .delayOnError c => some c | _ => none
+  match ds with
+  | [] =>
+    if !(o.delay == m.delay) || o.until_ != "0" then bad := bad ++ ["delay_only_by_delay_on_error"]
+  | [c] =>
+    -- failures seen at the position of DelayOnError
+    let inD := (inner.dropWhile fun mw => match mw with | .delayOnError _ => false | _ => true).drop 1
+    let outD := (outer.dropWhile fun mw => match mw with | .delayOnError _ => false | _ => true).drop 1
+    let k :=
+      if countD inner = 1 then
+        ((List.range n).filter fun i => isErrRes (effects cid inD (nth script i))).length
+      else
+        (if isErrRes (effects cid outD fin) then 1 else 0)
+    match delayRule c m.delay k o.delay with
+    | some r => bad := bad ++ [r]
+    | none => pure ()
+    if o.until_ != (if k = 0 then "0" else "1") then bad := bad ++ ["delay_until_written_with_for"]
+  | _ => pure ()   -- two DelayOnError in one stack: the statement gives no closed form; the model diff covers it
+  match bad.filter (· != "delay_first_uncapped") with
+  | r :: _ => return "violated:" ++ r
+  | [] => match bad with
+    | r :: _ => return "violated:" ++ r
+    | [] => return "ok"
+
+def monitorDelay (c : DelayCfg) (pre : Delay) (seq : List Bool) (obs : String) : String := Id.run do
+  let parts := if obs = "-" then [] else splitC obs ','
+  if parts.length != seq.length then return "violated:length"
+  let mut bad : List String := []
+  let mut k := 0
+  let mut prev := pre
+  let mut anyFail := false
+  for (f, p) in seq.zip parts do
+    match splitC p '/' with
+    | [d, flags] =>
+      match parseDelay d, flags.toList with
+      | some d, [u, ok] =>
+        if ok != '1' then bad := bad ++ ["transparent_result"]
+        if f then
+          k := k + 1
+          anyFail := true
+          match delayRule c pre k d with
+          | some r => bad := bad ++ [r]
+          | none => pure ()
+          if u != '1' then bad := bad ++ ["delay_until_written_with_for"]
+        else
+          if !(d == prev) then bad := bad ++ ["delay_success_untouched"]
+          if u != (if anyFail then '1' else '0') then bad := bad ++ ["delay_success_untouched"]
+        prev := d
+      | _, _ => return "bad-op"
+    | _ => return "bad-op"
+  match bad.filter (· != "delay_first_uncapped") with
+  | r :: _ => return "violated:" ++ r
+  | [] => match bad with
+    | r :: _ => return "violated:" ++ r
+    | [] => return "ok"
+
+def handle (line : String) : String :=
+  match line.splitOn " " with
+  | ["M", "stack", mws, msg, script] =>
+    match parseMws mws, parseMsg msg, parseScript script with
+    | some mws, some m, some sc => modelStack mws m sc
+    | _, _, _ => "bad-op"
+  | "P" :: "stack" :: mws :: msg :: script :: "##" :: obs =>
+    match parseMws mws, parseMsg msg, parseScript script with
+    | some mws, some m, some sc =>
+      if obs = ["hang"] then "violated:hang" else
+      match parseObs (String.intercalate " " obs) with
+      | some o => monitorStack mws m sc o
+      | none => "violated:unreadable_observation"
+    | _, _, _ => "bad-op"
+  | ["M", "delay", cfg, pre, seq] =>
+    match parseCfg cfg, parseDelay pre, parseSeq seq with
+    | some c, some p, some s => modelDelay c p s
+    | _, _, _ => "bad-op"
+  | ["P", "delay", cfg, pre, seq, "##", obs] =>
+    match parseCfg cfg, parseDelay pre, parseSeq seq with
+    | some c, some p, some s => monitorDelay c p s obs
+    | _, _, _ => "bad-op"
+  | ["M", "throttle", n, count, dur] =>
+    match n.toNat?, count.toNat?, dur.toNat? with
+    | some n, some c, some d => if n = 0 || c = 0 || d / c = 0 then "bad-op" else "starts=" ++ toString n ++ " spaced=1"
+    | _, _, _ => "bad-op"
+  | ["P", "throttle", n, count, dur, "##", starts, spaced] =>
+    match n.toNat?, count.toNat?, dur.toNat? with
+    | some n, some c, some d =>
+      if n = 0 || c = 0 || d / c = 0 then "bad-op"
+      else if starts != "starts=" ++ toString n then "violated:transparent_result"
+      else if spaced != "spaced=1" then "violated:throttle_rate"
+      else "ok"
+    | _, _, _ => "bad-op"
+  | _ => "bad-op"
+
+end C19
+
+def main : IO Unit := driverMain C19.handle
